@@ -168,6 +168,17 @@ CLAIMED["C17"] = dict(
          "in the continuous variants; a single-bin occupancy prior raises.",
     technique="Coq proof with NumPy routines as Section variables + extracted-model/implementation correspondence + statement oracle on discrete quantities",
     design="5 C17")
+CLAIMED["C12"] = dict(
+    text="Proof: for every dictionary or list of Ts/Tsd/arrays and every sequence of key-list / mask / getby_* / restrict / get / merge / to_tsd->to_tsgroup operations, a model of "
+         "TsGroup satisfies: keys are the sorted integer values of the supplied keys (non-integer or equal-valued keys rejected), the support is the supplied one or the union of the "
+         "members' supports, members are restricted to it (unless bypass_check), rate = len / total support duration as a rational, every operation preserves each surviving member's "
+         "timestamps under its key restricted to the new support, merge is total on disjoint keys (the pre-repair merge is refuted), the to_tsd/to_tsgroup round trip returns the members "
+         "with samples, and group-level count / value_from / trial_count are the per-member results - as invariants over arbitrary histories (fold_left).",
+    note="Trusted: Coq kernel; Model/Group.v (rawkey abstraction of int()/float(), one integer metadata column, stable-sort reading of np.argsort) tied by history correspondence after "
+         "every step on complete small spaces + random histories, and by the statement's own oracle; the two-member union is exact only farther than 1 us from endpoints; Tsd data "
+         "values and metadata beyond one column are C13's.",
+    technique="Coq proof over an executable model of ts_group.py reusing the C01/C02/C03/C05/C06/C08 theorems + history correspondence with the extracted model",
+    design="5 C12")
 REASON_TODO = "check not built yet in this round (planned: DESIGN.md section 5)"
 m = {
     "version": 1,
